@@ -874,10 +874,11 @@ def replace_placeholders(expression: Expr, *args: object, **kwargs: t.Any) -> Ex
             if node.this:
                 new_name = kwargs.get(node.this)
                 if new_name is not None:
-                    return convert(new_name)
+                    # a node given as the value must not end up under several parents or leave its own tree
+                    return convert(new_name, copy=True)
             else:
                 try:
-                    return convert(next(args))
+                    return convert(next(args), copy=True)
                 except StopIteration:
                     pass
         return node
